@@ -21,11 +21,14 @@ import (
 	"github.com/goblimey/go-ntrip/jsonconfig"
 )
 
+// slowWriter stands for standard output or a file: it takes its time per call and, like *os.File, it can be closed,
+// after which writes fail.
 type slowWriter struct {
 	mu      sync.Mutex
 	buf     bytes.Buffer
 	latency time.Duration
 	calls   int
+	closed  bool
 }
 
 func (w *slowWriter) Write(p []byte) (int, error) {
@@ -35,7 +38,17 @@ func (w *slowWriter) Write(p []byte) (int, error) {
 	w.mu.Lock()
 	defer w.mu.Unlock()
 	w.calls++
+	if w.closed {
+		return 0, os.ErrClosed
+	}
 	return w.buf.Write(p)
+}
+
+func (w *slowWriter) Close() error {
+	w.mu.Lock()
+	defer w.mu.Unlock()
+	w.closed = true
+	return nil
 }
 
 func (w *slowWriter) snapshot() []byte {
@@ -52,9 +65,13 @@ type chunkReader struct {
 	eofWithLast bool          // the last bytes and io.EOF come from one Read call
 	pause       time.Duration // silence between the last bytes and the end of input
 	paused      bool
+	midPause    time.Duration // one silence in the middle of the input: before the Read that starts at offset midAt or later
+	midAt       int
+	midDone     bool
+	pos         int
 }
 
-// readerOptions parses the optional last field of a case: "-" | "e" | "p<ms>" | "e,p<ms>".
+// readerOptions parses the optional last field of a case: "-" | "e" | "p<ms>" | "m<ms>@<offset>", comma separated.
 func readerOptions(r *chunkReader, s string) {
 	for _, o := range strings.Split(s, ",") {
 		switch {
@@ -63,6 +80,11 @@ func readerOptions(r *chunkReader, s string) {
 		case strings.HasPrefix(o, "p"):
 			ms, _ := strconv.Atoi(o[1:])
 			r.pause = time.Duration(ms) * time.Millisecond
+		case strings.HasPrefix(o, "m") && strings.Contains(o, "@"):
+			parts := strings.SplitN(o[1:], "@", 2)
+			ms, _ := strconv.Atoi(parts[0])
+			r.midPause = time.Duration(ms) * time.Millisecond
+			r.midAt, _ = strconv.Atoi(parts[1])
 		}
 	}
 }
@@ -75,6 +97,10 @@ func (r *chunkReader) Read(p []byte) (int, error) {
 		}
 		return 0, io.EOF
 	}
+	if r.midPause > 0 && !r.midDone && r.pos >= r.midAt {
+		r.midDone = true
+		time.Sleep(r.midPause)
+	}
 	n := r.chunks[r.i%len(r.chunks)]
 	r.i++
 	if n > len(p) {
@@ -83,8 +109,15 @@ func (r *chunkReader) Read(p []byte) (int, error) {
 	if n > len(r.data) {
 		n = len(r.data)
 	}
+	if r.midPause > 0 && !r.midDone && r.pos+n > r.midAt {
+		n = r.midAt - r.pos // stop exactly at the offset, so that the silence falls where the case says
+		if n <= 0 {
+			n = 1
+		}
+	}
 	copy(p, r.data[:n])
 	r.data = r.data[n:]
+	r.pos += n
 	if len(r.data) == 0 && r.eofWithLast {
 		return n, io.EOF
 	}
